@@ -190,6 +190,7 @@ type c05pair struct {
 	qualifier string // text before the dot in the annotation ("" = none)
 	annName   string // interface name written in the annotation
 	file      int    // which file of impl
+	extra     string // a second @implements line on the same type: "<kind>-<before|after>" or ""
 }
 
 var c05features = []string{
@@ -415,7 +416,7 @@ func genModule(r *base.Rand, nPairs int, startFeature int) *c05module {
 	ifc.WriteString("package ifc\n\ntype Item struct{ N int }\n\ntype ID int\n\ntype AliasItem = Item\n\ntype AliasInt = int\n\n// SealBase lets other packages implement sealed interfaces by embedding it.\ntype SealBase struct{}\n\nfunc (SealBase) sealed() {}\n\n")
 	alt.WriteString("package altname\n\nimport \"m5/ifc\"\n\nvar _ ifc.ID\n\ntype Item struct{ Other string }\n\n")
 	implFiles := []*strings.Builder{{}, {}, {}, {}}
-	implFiles[0].WriteString("package impl\n\nimport (\n\t\"m5/ifc\"\n\tifc2 \"m5/v2/ifc\"\n\t\"m5/yy\"\n)\n\nvar _ ifc.ID\nvar _ altname.Item\nvar _ ifc2.Item\n\ntype Loc struct{}\n\ntype LocAlias = Loc\n\n")
+	implFiles[0].WriteString("package impl\n\nimport (\n\t\"m5/ifc\"\n\tifc2 \"m5/v2/ifc\"\n\t\"m5/yy\"\n)\n\nvar _ ifc.ID\nvar _ altname.Item\nvar _ ifc2.Item\n\ntype Loc struct{}\n\ntype LocAlias = Loc\n\n// TinyX and EmptyX are targets of second annotation lines.\ntype TinyX interface{ TinyM() }\n\ntype EmptyX interface{}\n\n")
 	implFiles[1].WriteString("package impl\n\nimport (\n\tii \"m5/ifc\"\n\tifc2 \"m5/v2/ifc\"\n\taa \"m5/yy\"\n)\n\nvar _ ii.ID\nvar _ aa.Item\nvar _ ifc2.Item\n\n")
 	implFiles[2].WriteString("package impl\n\nimport (\n\taa \"m5/ifc\"\n\tifc2 \"m5/v2/ifc\"\n\tii \"m5/yy\"\n)\n\nvar _ aa.ID\nvar _ ii.Item\nvar _ ifc2.Item\n\n")
 	implFiles[3].WriteString("package impl\n\nimport _ \"m5/ifc\"\n\n") // blank import only
@@ -508,7 +509,29 @@ func genModule(r *base.Rand, nPairs int, startFeature int) *c05module {
 		if q != "" {
 			full = q + "." + ann
 		}
-		fmt.Fprintf(tw, "// %s is generated (feature %s).\n// @implements %s%s\n", p.tname, p.feature, amp, full)
+		// a second annotation line on the same type: every line is judged on its own
+		extraLine := ""
+		if m.special[p.idx] == "" {
+			switch (p.idx*5 + startFeature) % 7 {
+			case 2:
+				p.extra, extraLine = "unimported", "// @implements nosuchpkg.Thing\n"
+			case 3:
+				p.extra, extraLine = "missing", "// @implements NoSuchIface\n"
+			case 4:
+				p.extra, extraLine = "tiny", "// @implements TinyX\n"
+			case 5:
+				p.extra, extraLine = "empty", "// @implements &EmptyX\n"
+			}
+		}
+		before, after := "", ""
+		if p.extra != "" {
+			if ((p.idx+startFeature)/7)%2 == 0 {
+				p.extra, before = p.extra+"-before", extraLine
+			} else {
+				p.extra, after = p.extra+"-after", extraLine
+			}
+		}
+		fmt.Fprintf(tw, "// %s is generated (feature %s).\n%s// @implements %s%s\n%s", p.tname, p.feature, before, amp, full, after)
 		body := func(tm *c05method) string {
 			if len(tm.res) == 0 {
 				return "{}"
@@ -577,6 +600,7 @@ func genModule(r *base.Rand, nPairs int, startFeature int) *c05module {
 		tw.feature = "same-qualifier-other-package-in-sibling-file"
 		tw.file = 3 - p.file
 		tw.ifacePkg = "alt"
+		tw.extra = ""
 		tq := m.fileQual[tw.file]
 		w := implFiles[tw.file]
 		amp := ""
@@ -669,6 +693,28 @@ func c05oracle(dir string) (map[string]c05expect, error) {
 		return nil, fmt.Errorf("package m5/impl not loaded")
 	}
 	out := map[string]c05expect{}
+	acc := map[string][]c05expect{}
+	defer func() {
+		// several annotation lines on one type: the codes of all lines together
+		for name, list := range acc {
+			var codes []string
+			m := c05expect{}
+			for _, e := range list {
+				if e.code != "" {
+					codes = append(codes, e.code)
+				}
+				m.missing = append(m.missing, e.missing...)
+				m.free = m.free || e.free
+				if e.why != "" {
+					m.why += e.why + "; "
+				}
+			}
+			sort.Strings(codes)
+			sort.Strings(m.missing)
+			m.code = strings.Join(codes, "+")
+			out[name] = m
+		}
+	}()
 	for _, f := range pk.Syntax {
 		for _, d := range f.Decls {
 			gd, ok := d.(*ast.GenDecl)
@@ -717,7 +763,7 @@ func c05oracle(dir string) (map[string]c05expect, error) {
 							} else {
 								exp.code, exp.why = "IMPL01", "qualifier not bound by any import of the file"
 							}
-							out[ts.Name.Name] = exp
+							acc[ts.Name.Name] = append(acc[ts.Name.Name], exp)
 							continue
 						}
 					}
@@ -730,7 +776,7 @@ func c05oracle(dir string) (map[string]c05expect, error) {
 					}
 					if iface == nil {
 						exp.code, exp.why = "IMPL02", "no interface of that name in the package"
-						out[ts.Name.Name] = exp
+						acc[ts.Name.Name] = append(acc[ts.Name.Name], exp)
 						continue
 					}
 					// (3) method sets
@@ -755,7 +801,7 @@ func c05oracle(dir string) (map[string]c05expect, error) {
 					if types.Implements(V, iface) != (len(exp.missing) == 0) {
 						return nil, fmt.Errorf("oracle inconsistency on %s: Implements=%v missing=%v", ts.Name.Name, types.Implements(V, iface), exp.missing)
 					}
-					out[ts.Name.Name] = exp
+					acc[ts.Name.Name] = append(acc[ts.Name.Name], exp)
 				}
 			}
 		}
@@ -843,6 +889,9 @@ func checkC05(replay string) {
 			if p.ifacePkg == "alt" && p.file == 0 && m.special[p.idx] == "" && feat == "plain" {
 				feat = "pkgname-differs-from-dir"
 			}
+			if p.extra != "" {
+				feat += "+second-line-" + p.extra
+			}
 			contract := "value"
 			if p.ptrContract {
 				contract = "pointer"
@@ -877,7 +926,7 @@ func checkC05(replay string) {
 				r.Violate("IMPL/"+dir+"/"+feat, fmt.Sprintf("module %d type %s (feature %s, %s contract, interface in %s, annotation qualifier %q): go/types expects %q %v (%s), tool reported %q %v", mi, p.tname, p.feature, contract, p.ifacePkg, p.qualifier, e.code, e.missing, e.why, gotCode, gotMissing), fs)
 				continue
 			}
-			if e.code == "IMPL03" && strings.Join(gotMissing, ",") != strings.Join(e.missing, ",") {
+			if strings.Contains(e.code, "IMPL03") && strings.Join(gotMissing, ",") != strings.Join(e.missing, ",") {
 				r.Violate("IMPL/wrong-method-list/"+feat, fmt.Sprintf("module %d type %s (feature %s, %s contract): go/types misses %v, tool lists %v", mi, p.tname, p.feature, contract, e.missing, gotMissing), fs)
 			}
 		}
